@@ -23,6 +23,9 @@
 use crate::{substream::Substream, PeerId};
 
 use futures::{FutureExt, Sink, Stream};
+#[cfg(litep2p_verif)]
+use crate::verif::timer::Delay;
+#[cfg(not(litep2p_verif))]
 use futures_timer::Delay;
 use parking_lot::RwLock;
 
